@@ -36,7 +36,8 @@ JudgeLive(e) ==
   ELSE ""
 \* a handshake message of an honest dialer was altered on the path: whatever becomes of that connection, the node goes on serving
 JudgeHs(e) ==
-  IF ~e.nodeok \/ e.local # "ok" THEN (IF e.local = "hang" THEN "NoHang" ELSE "LocalUnaffected")
+  IF e.after = "hang" THEN "NoHang"        \* the dialing node never came back from the handshake
+  ELSE IF ~e.nodeok \/ e.local # "ok" THEN (IF e.local = "hang" THEN "NoHang" ELSE "LocalUnaffected")
   ELSE IF e.witness # "ok" THEN (IF e.witness = "hang" THEN "NoHang" ELSE "OthersUnaffected")
   ELSE ""
 JudgeEdf(e) ==
